@@ -39,7 +39,7 @@ OUT = os.path.join(VERIF, "survey")
 FILES = ["symmray/abelian_core.py", "symmray/fermionic_core.py", "symmray/block_core.py",
          "symmray/linalg.py", "symmray/symmetries.py", "symmray/interface.py",
          "symmray/scipy/linalg.py"]
-PROPS = ["C01", "C14", "C09", "C15", "C04"]
+PROPS = os.environ.get("SURVEY_PROPS", "C01,C14,C09,C15,C04").split(",")
 
 CMP = {ast.Eq: "!=", ast.NotEq: "==", ast.Lt: "<=", ast.LtE: "<", ast.Gt: ">=", ast.GtE: ">",
        ast.Is: "is not", ast.IsNot: "is", ast.In: "not in", ast.NotIn: "in"}
@@ -367,10 +367,29 @@ def main(argv):
         ms = {m["id"]: m for m in _load("mutants.jsonl")}
         surv = [ms[r["id"]] for r in _load("tests.jsonl") if r["tests_exit"] == 0]
         _pool(run_engines, surv, jobs, "engines.jsonl", (runs, cap))
+    elif cmd == "deeper":
+        # second pass over what stayed quiet, with a larger budget
+        ms = {m["id"]: m for m in _load("mutants.jsonl")}
+        files = argv[argv.index("--files") + 1].split(",") if "--files" in argv else None
+        quiet = []
+        for r in _load("engines.jsonl"):
+            sts = [v["status"] for v in r["props"].values()]
+            if all(s == "quiet" for s in sts):
+                m = ms[r["id"]]
+                if files is None or any(f in m["file"] for f in files):
+                    quiet.append(m)
+        if "--ids" in argv:
+            want = {int(x) for x in argv[argv.index("--ids") + 1].split(",")}
+            quiet = [m for m in quiet if m["id"] in want]
+        _pool(run_engines, quiet, jobs, "deeper.jsonl", (runs, cap))
     elif cmd == "report":
         ms = {m["id"]: m for m in _load("mutants.jsonl")}
         ts = {r["id"]: r for r in _load("tests.jsonl")}
         es = {r["id"]: r for r in _load("engines.jsonl")}
+        deeper = {r["id"]: r for r in _load("deeper.jsonl")}
+        for i, r in deeper.items():
+            if any(v["status"] == "violation" for v in r["props"].values()):
+                es[i] = r
         surv = [i for i, r in ts.items() if r["tests_exit"] == 0]
         print(f"mutants {len(ms)}; suite run on {len(ts)}; survive the suite {len(surv)}; "
               f"engines run on {len(es)}")
@@ -383,7 +402,9 @@ def main(argv):
                 harness.append(i)
             else:
                 quiet.append(i)
-        print(f"  violation reported: {len(caught)}; harness error/hang only: {len(harness)}; quiet: {len(quiet)}")
+        print(f"  violation reported: {len(caught)} (of which only with the larger second-pass budget: "
+              f"{sum(1 for i in caught if i in deeper)}); harness error/hang only: {len(harness)}; quiet: {len(quiet)}"
+              f" (second pass run on {len(deeper)})")
         if "--quiet" in argv or "--all" in argv:
             for i in sorted(quiet, key=lambda i: (ms[i]["file"], ms[i]["line"])):
                 m = ms[i]
